@@ -23,7 +23,8 @@
           "nout"     the i-th (0-based) element obtained by ITERATING over the
                      nout-call xs[1]
      w    (const / cont only)  the Python object is wrapped in dask.delayed(...)
-     pure (call / meth only)   the pure= flag;  dkn = dask_key_name ("" = none)
+     pure the pure= flag of a call / method call / of the wrapping delayed(obj, pure=...);
+     dkn = dask_key_name ("" = none)
 
    The MEANING of a program, Vals(p), does not look at w, pure, dkn: that is the
    property.  How a program is BUILT with dask does: a node is *delayed* (Mode)
@@ -37,8 +38,10 @@
      * operators, item access, iteration over nout, attribute access are pure;
      * a call / method call is pure iff its pure flag is set; dask_key_name
        overrides (identity = the name);
-     * an impure call and a wrapped leaf are identified by the node itself
-       (a fresh key for every object);
+     * an impure call and a wrapped object are identified by the node itself
+       (a fresh key for every object) - unless the object is wrapped with
+       pure=True: then by the object (its value, or its structure over the
+       Delayed objects it holds);
      * an argument is identified by its key identity when it is delayed and by
        its (structural) value when it is plain; plain containers are identified
        elementwise (sets and dicts without order).
@@ -200,11 +203,11 @@ PlainIdent(nd, V, I) ==
 
 \* a plain container of plain values is identified by its VALUE (a list built from the
 \* constants 1 and 2 is the same argument as the constant [1, 2])
-KeyIdent(nd, n, I) ==
+KeyIdent(nd, n, I, parg) ==
   LET A == [j \in DOMAIN I |-> I[j].arg]
       xa == [i \in DOMAIN nd.xs |-> A[nd.xs[i]]]
       ka == [i \in DOMAIN nd.kx |-> A[nd.kx[i]]]
-  IN CASE nd.op \in {"const", "cont"} -> Uniq(n)
+  IN CASE nd.op \in {"const", "cont"} -> (IF nd.pure THEN [t |-> "wpure", wa |-> parg] ELSE Uniq(n))
        [] nd.op \in {"call", "meth"} ->
             (IF nd.dkn # "" THEN [t |-> "named", name |-> nd.dkn]
              ELSE IF nd.pure THEN [t |-> nd.op, cf |-> nd.nm, cn |-> nd.i, ca |-> xa, ck |-> { <<nd.kn[i], ka[i]>> : i \in DOMAIN ka }]
@@ -221,13 +224,14 @@ InfoAt(nd, n, I) ==
   LET V  == [j \in DOMAIN I |-> I[j].val]
       A  == [j \in DOMAIN I |-> I[j].arg]
       d  == IF nd.op \in {"const", "cont"} THEN nd.w ELSE TRUE
-      h  == d \/ (nd.op = "cont" /\ \E j \in NodeRefs(nd) : I[j].h)
+      hc == nd.op = "cont" /\ \E j \in NodeRefs(nd) : I[j].h       \* a member holds a Delayed
+      h  == d \/ hc
       val == EvalNode(nd, V)
-      key == KeyIdent(nd, n, I)
+      \* identity of the Python object before any wrapping: its value, or its structure over Delayed members
+      parg == IF ~hc THEN [t |-> "val", pv |-> val] ELSE PlainIdent(nd, V, A)
+      key == KeyIdent(nd, n, I, parg)
   IN [d |-> d, h |-> h, val |-> val, key |-> key,
-      arg |-> IF d THEN [t |-> "key", kid |-> key]
-              ELSE IF ~h THEN [t |-> "val", pv |-> val]
-              ELSE PlainIdent(nd, V, A)]
+      arg |-> IF d THEN [t |-> "key", kid |-> key] ELSE parg]
 RECURSIVE InfoUpTo(_, _)
 InfoUpTo(p, n) == IF n = 0 THEN <<>>
                   ELSE LET prev == InfoUpTo(p, n - 1) IN Append(prev, InfoAt(p[n], n, prev))
